@@ -217,6 +217,10 @@ async def _scenario(seed: int) -> dict[str, Any]:
     return {"n": n, "events": final, "problems": problems, "meta": f"seed={seed} n={n} families={['v4' if f == socket.AF_INET else 'v6' for f in fams]} bindfail={sorted(bindfail)} local={None if local is None else ['v4' if x[0] == socket.AF_INET else 'v6' for x in local]}"}
 
 
+def _run_one(seed: int) -> dict[str, Any]:
+    return vloop.run(lambda: _scenario(seed))  # type: ignore[no-any-return]
+
+
 def run(chk: Check) -> None:
     quick = chk.tier == "quick"
     chk.rule = (
@@ -225,7 +229,9 @@ def run(chk: Check) -> None:
     )
     if not _model(chk, quick):
         return
-    rec = [vloop.run(lambda: _scenario(chk.seed * 104729 + i)) for i in range(3000 if quick else 30000)]
+    from ..common import pmap
+
+    rec = pmap(_run_one, [chk.seed * 104729 + i for i in range(3000 if quick else 60000)])
     slim = [{"n": t["n"], "events": t["events"]} for t in rec]
     res = traces.validate("ConnectRaceTrace", slim, cfg_text=TRACE_CFG.replace("Obs", "Obs"), parallel=8, chunk=500)
     chk.traces += len(rec)
